@@ -68,6 +68,10 @@ def run(rec, cfg):
     MR.attach_can()
     MR.attach_find()
     rng = cfg.rng("c06")
+    from ..workloads import interrupted as _INT
+
+    if cfg.shard == 6 % cfg.nshards:
+        _INT.rule_question_cases(rec, "C06")      # a question cut short, then the same question: same answer
     rules = RC.with_flippers(MR.rule_instances())
     n = cfg.scale(20, 12000)
 
@@ -140,6 +144,11 @@ def run(rec, cfg):
 
 
 def replay(rec, cfg, w):
+    if "failpoint" in w:
+        from ..workloads import interrupted as _INT
+
+        _INT.rule_question_cases(rec, "C06")      # deterministic: the whole family of cases is run again
+        return
     MR.CHECKS.update({"apply"})
     MR.attach_apply()
     MR.attach_can()
